@@ -61,6 +61,10 @@ def run_property(pid, tier, seed, only=None):
             r.verdict = "crash"
             r.detail = "".join(traceback.format_exception(type(e), e, e.__traceback__))[-3000:]
             res, meta = [r], {"target": cls.target}
+        if cls.kind == "canary" and not any(r.clause.startswith("must_fail") for r in res) and not any(r.clause == "explore" for r in res):
+            r = C.Result(cls.target + "/canary_missing", cls.target, "-", "canary_produced_no_obligation", "canary")
+            r.verdict, r.detail = "crash", "canary %s produced no must_fail obligation" % cls.__name__
+            res = res + [r]
         meta["kind"] = cls.kind
         meta["doc"] = (cls.__doc__ or "").strip()[:600]
         results += res
@@ -79,7 +83,14 @@ def run_property(pid, tier, seed, only=None):
             crashes.append(r)
         else:
             undecided.append(r)
-    bad_canaries = [r for r in canaries if r.clause.startswith("must_fail") and r.verdict != "refuted"]
+    positive = {(r.target, r.clause, r.case): r.verdict for r in obls + bounded}
+    # a canary is the negation of a clause that holds; if that clause itself is refuted on this tree (a real
+    # violation, reported as such) its negation is of course not refutable: that is not a checker error
+    bad_canaries = [
+        r for r in canaries
+        if r.clause.startswith("must_fail") and r.verdict != "refuted"
+        and positive.get((r.target, r.clause[len("must_fail/"):], r.case)) == "proved"
+    ]
     bad_canaries += [r for r in canaries if not r.clause.startswith("must_fail") and r.verdict != "proved"]
 
     os.makedirs(os.path.join(ROOT, "replays", pid), exist_ok=True)
@@ -145,12 +156,25 @@ def run_property(pid, tier, seed, only=None):
         "wall_s": round(wall, 2),
         "violations": len(violations),
     }
+    thorough_lines = []
+    native_viol = []
+    if tier == "thorough" and not only:
+        from . import thorough as TH
+
+        extra, thorough_lines = TH.run(pid)
+        ev["coverage"]["thorough"] = extra
+        native_viol = [x for x in extra["native_cross_checks"] if x["confirmed_violation"]]
     os.makedirs(os.path.join(ROOT, "evidence"), exist_ok=True)
     if not only:
         with open(os.path.join(ROOT, "evidence", pid + ".json"), "w") as f:
             json.dump(ev, f, indent=1, default=str)
 
-    for ln in lines:
+    for x in native_viol:
+        path = os.path.join(ROOT, "replays", pid, "native_" + "_".join(x["script"]) + ".json")
+        with open(path, "w") as f:
+            json.dump({"property": pid, "obligation": "native cross-check " + " ".join(x["script"]), "function": "native", "replay": x}, f, indent=1, default=str)
+        lines.append(f"VIOLATION property={pid} replay={path} obligation=native-cross-check:{'/'.join(x['script'])}")
+    for ln in lines + thorough_lines:
         print(ln)
     for r in undecided:
         print(f"UNDECIDED property={pid} {r.name}: {r.detail[:300]}")
@@ -161,10 +185,10 @@ def run_property(pid, tier, seed, only=None):
         f"known={len(known_hit)} violations={len(violations)} undecided={len(undecided)} "
         f"canaries={len(canaries) - len(bad_canaries)}/{len(canaries)} paths={ev['coverage']['paths_explored']} wall={wall:.1f}s"
     )
+    if violations or native_viol:
+        return 1
     if crashes or bad_canaries:
         return 3
-    if violations:
-        return 1
     if undecided or few or n_obl == 0:
         if few:
             print(f"UNDECIDED property={pid}: only {n_obl} obligations generated, expected >= {expected.get(pid)}")
